@@ -431,7 +431,79 @@ pub struct HuntResult {
     pub suspicious: usize,
 }
 
+fn post_malformed(ev: &Value) -> bool {
+    if let Some(ps) = ev["post"].as_array() {
+        for p in ps {
+            if let Some(t) = p.get("t") {
+                let n = t["n"].as_u64().unwrap_or(0) as usize;
+                let nb = t["nb"].as_u64().unwrap_or(0) as usize;
+                let bad = nb != (if n <= 6 { 1 } else { 1usize << (n - 6) })
+                    || t.get("val").is_some()
+                    || t.get("valpanic").is_some()
+                    || t["on"].as_array().map(|a| a.iter().any(|x| x.as_u64().unwrap() as usize >= (1usize << n))).unwrap_or(true);
+                if bad {
+                    return true;
+                }
+            }
+        }
+    }
+    false
+}
+
+fn run_all<T: Tab>(ops: &[Value]) -> Vec<Value> {
+    let mut st: State<T> = State::new();
+    ops.iter()
+        .map(|op| {
+            let mut ev = st.exec(op);
+            ev.as_object_mut().unwrap().remove("ty");
+            ev
+        })
+        .collect()
+}
+
+/// C02 / C10: random call histories.  C02: some produced table is malformed (or a valid call fails);
+/// C10: the two table types do not produce the same events.
+fn hunt_histories(prop: &str, seed: u64, budget_ms: u64) -> HuntResult {
+    use crate::gen::lutops::{history, HistCfg, REL_FORMS};
+    let mut r = rng(seed, 7778);
+    let t0 = Instant::now();
+    let c10 = prop == "C10";
+    let cfg = HistCfg {
+        len: 10,
+        queries: c10,
+        relforms: if c10 { &REL_FORMS } else { &["eq", "ne", "cmp", "pcmp", "hasheq"] },
+        canon_max_n: 5,
+        allow_random: !c10,
+        reload: !c10,
+    };
+    let mut out = Vec::new();
+    let (mut screened, mut nsusp, mut nsample) = (0usize, 0usize, 0usize);
+    while t0.elapsed() < Duration::from_millis(budget_ms) && nsusp < 40 {
+        let n = pick_n(&mut r, 0, 12);
+        let ops = history(n, &mut r, &cfg);
+        screened += 1;
+        let a = run_all::<Lut>(&ops);
+        let b = crate::with_static!(n, L, run_all::<L>(&ops));
+        let bad = if c10 {
+            a != b
+        } else {
+            a.iter().chain(b.iter()).any(|ev| post_malformed(ev) || ev["out"] == "panic")
+        };
+        if bad {
+            nsusp += 1;
+            out.push(Episode { n, tys: "both", ops });
+        } else if nsample < 13 && nsample <= n {
+            nsample += 1;
+            out.push(Episode { n, tys: "both", ops });
+        }
+    }
+    HuntResult { episodes: out, screened, suspicious: nsusp }
+}
+
 pub fn hunt(prop: &str, seed: u64, budget_ms: u64) -> HuntResult {
+    if prop == "C02" || prop == "C10" {
+        return hunt_histories(prop, seed, budget_ms);
+    }
     let mut r = rng(seed, 7777);
     let mut pool = Pool { tables: HashMap::new() };
     let t0 = Instant::now();
